@@ -535,6 +535,15 @@ def cons_newValidBlock_validates_bits : Bool := true
 /-- has consensus/reactor.go ProposalPOLMessage.ValidateBasic -/
 def cons_proposalPOL_validates_bits : Bool := true
 
+/-- has consensus/reactor.go Reactor.ReceiveEnvelope -/
+def cons_receive_any_deferred_unlock : Bool := false
+
+/-- has consensus/reactor.go Reactor.ReceiveEnvelope -/
+def cons_receive_vote_deferred_runlock : Bool := false
+
+/-- has consensus/reactor.go Reactor.ReceiveEnvelope -/
+def cons_receive_vote_unlock_before_queue : Bool := true
+
 /-- has consensus/reactor.go VoteSetBitsMessage.ValidateBasic -/
 def cons_voteSetBits_validates_bits : Bool := true
 
@@ -673,6 +682,6 @@ def types_MaxBlockPartsCount : Int := 1601
 /-- const types/vote_set.go MaxVotesCount -/
 def types_MaxVotesCount : Int := 10000
 
-def factCount : Nat := 224
+def factCount : Nat := 227
 
 end Tmv.Facts
